@@ -338,12 +338,55 @@ def stream_bonds(ctx, E, only=None):
 
 # ---------------------------------------------------------------- stream 2: Hubbard generators
 
-def coupling(rng, zero_p=0.15):
+_COUPLING_TYPES = {}
+
+
+def coupling_types(of):
+    """(T) numeric types a coupling may have: probed once per run on the tree under test; a type the tree rejects is excluded"""
+    if 'ok' not in _COUPLING_TYPES:
+        import numpy
+        cands = {'float64': numpy.float64, 'int64': numpy.int64, 'int32': numpy.int32, 'float32': numpy.float32, 'bool': bool,
+                 'float16': numpy.float16}
+        ok = {}
+        for name, ty in cands.items():
+            try:
+                of.fermi_hubbard(2, 1, ty(1), ty(1), ty(1), ty(1))
+                of.bose_hubbard(2, 1, ty(1), ty(1), ty(1), ty(1))
+                of.mean_field_dwave(2, 1, ty(1), ty(1), ty(1))
+                ok[name] = ty
+            except Exception:  # noqa: BLE001
+                pass
+        _COUPLING_TYPES['ok'] = ok
+    return _COUPLING_TYPES['ok']
+
+
+def coupling(rng, zero_p=0.15, types=None, band_p=0.12):
+    """dyadic coupling: O(1), or (B) of magnitude 1e-7 .. 1e-4 (a decade away from the 1e-8 pruning threshold even after the
+    factors 1/2, 1/4 the generators apply); (T) as Python float / int or one of the accepted numpy / bool types"""
     if rng.random() < zero_p:
         return 0.0
-    n = rng.randint(-8, 8) or 3
-    v = n / (2 ** rng.randint(0, 3))
+    if rng.random() < band_p:
+        v = rng.choice([1, -1, 3, -5]) * 2.0 ** -rng.choice([14, 17, 20])
+    else:
+        n = rng.randint(-8, 8) or 3
+        v = n / (2 ** rng.randint(0, 3))
+    if types and rng.random() < 0.25:
+        name = rng.choice(sorted(types))
+        if name == 'bool':
+            return bool(rng.random() < 0.7)
+        if name.startswith('int'):
+            return types[name](int(v) if float(v).is_integer() else rng.randint(-3, 3))
+        if name == 'float16' and abs(v) < 1e-3:
+            return float(v)
+        return types[name](v)
     return int(v) if (rng.random() < 0.2 and float(v).is_integer()) else v
+
+
+def complex_coupling(rng):
+    """(A) complex / purely imaginary dyadic amplitude"""
+    re = 0.0 if rng.random() < 0.4 else rng.randint(-4, 4) / 4
+    im = (rng.randint(-4, 4) or 2) / 4
+    return complex(re, im)
 
 
 def doc_fermi_hubbard(x, y, t, U, mu, h, spinless, phs, edges):
@@ -425,16 +468,30 @@ def stream_hubbard(ctx, E, only=None):
     extra = [(x, y) for x in range(1, 7) for y in range(1, 7) if (x, y) not in sizes]
     sizes += extra if big else rng.sample(extra, 5)
     reps = (5 if ctx.tier == 'thorough' else 3) if big else 1
+    types = coupling_types(of)
+    for name in types:
+        s.count('accepted coupling type:' + name)
     cases = []
+    # (B) lattices with more than 256 modes: mode indices beyond CPython's small-int cache
+    sizes += [(1, 130), (130, 1), (2, 65), (17, 8)] if big else [rng.choice([(1, 130), (130, 1), (2, 65), (17, 8)])]
     for (x, y) in sizes:
         for p in (True, False):
             for rep in range(reps):
                 for kind in ('fh-spinful', 'fh-spinless', 'bose', 'dwave'):
                     phs = rng.random() < 0.5 if kind.startswith('fh') else False
                     c = {'kind': kind, 'x': x, 'y': y, 'periodic': p, 'phs': phs,
-                         't': coupling(rng), 'u': coupling(rng), 'mu': coupling(rng), 'h': coupling(rng)}
+                         't': coupling(rng, types=types), 'u': coupling(rng, types=types), 'mu': coupling(rng, types=types),
+                         'h': coupling(rng, types=types)}
+                    if rng.random() < 0.12:
+                        c['t'] = complex_coupling(rng)          # (A) complex hopping amplitude: t on i->j, conj(t) on j->i
+                        if kind == 'dwave' and rng.random() < 0.5:
+                            c['u'] = complex_coupling(rng)      # complex gap
                     cases.append(c)
     if only is not None:
+        only = dict(only)
+        for k in ('t', 'u', 'mu', 'h'):
+            if isinstance(only.get(k), list):
+                only[k] = complex(*only[k])
         cases = [only]
     E.prefetch([(c['x'], c['y'], c['periodic'], k) for c in cases for k in (0, 2, 3)])
     reqs = []
@@ -455,15 +512,26 @@ def stream_hubbard(ctx, E, only=None):
         s.case(c)
         s.count(c['kind'])
         s.count('phs' if c['phs'] else 'no-phs')
-        try:
+        def build():
             if c['kind'] == 'fh-spinful':
-                H = of.fermi_hubbard(x, y, c['t'], c['u'], c['mu'], c['h'], p, False, c['phs'])
-            elif c['kind'] == 'fh-spinless':
-                H = of.fermi_hubbard(x, y, c['t'], c['u'], c['mu'], c['h'], p, True, c['phs'])
-            elif c['kind'] == 'bose':
-                H = of.bose_hubbard(x, y, c['t'], c['u'], c['mu'], c['h'], p)
-            else:
-                H = of.mean_field_dwave(x, y, c['t'], c['u'], c['mu'], p)
+                return of.fermi_hubbard(x, y, c['t'], c['u'], c['mu'], c['h'], p, False, c['phs'])
+            if c['kind'] == 'fh-spinless':
+                return of.fermi_hubbard(x, y, c['t'], c['u'], c['mu'], c['h'], p, True, c['phs'])
+            if c['kind'] == 'bose':
+                return of.bose_hubbard(x, y, c['t'], c['u'], c['mu'], c['h'], p)
+            return of.mean_field_dwave(x, y, c['t'], c['u'], c['mu'], p)
+        try:
+            # (S) the generator is called twice around an in-place modification of the first result
+            H0 = build()
+            first = exact_terms(H0)
+            H0 *= 3.0
+            H0.terms[()] = 99.0
+            H0.terms.pop(next(iter(H0.terms)), None)
+            H = build()
+            if exact_terms(H) != first:
+                s.violate('a second call returns a different operator after the first result was modified in place', c, None)
+            if H is H0:
+                s.violate('two calls return the same object', c, None)
         except Exception as e:  # noqa: BLE001
             s.violate('generator raised on an admissible input', c, repr(e))
             continue
@@ -473,7 +541,11 @@ def stream_hubbard(ctx, E, only=None):
             s.disagree(c['kind'] + ' terms', c, jop, mo)
         impl = exact_terms(H)
         nn = E.get(x, y, p, 0)
-        if c['kind'] == 'fh-spinful':
+        cplx = any(isinstance(c[k], complex) for k in ('t', 'u', 'mu', 'h'))
+        if cplx:
+            s.count('complex amplitude')
+            doc, modes = None, (x * y if c['kind'] in ('fh-spinless', 'bose') else 2 * x * y)
+        elif c['kind'] == 'fh-spinful':
             doc = doc_fermi_hubbard(x, y, c['t'], c['u'], c['mu'], c['h'], False, c['phs'], nn)
             modes = 2 * x * y
         elif c['kind'] == 'fh-spinless':
@@ -485,11 +557,19 @@ def stream_hubbard(ctx, E, only=None):
         else:
             doc = doc_dwave(x, y, c['t'], c['u'], c['mu'], E.get(x, y, p, 2), E.get(x, y, p, 3))
             modes = 2 * x * y
-        compare_doc(s, c['kind'], c, impl, doc, fermion=(cls == 'fermion'))
+        if not cplx:
+            compare_doc(s, c['kind'], c, impl, doc, fermion=(cls == 'fermion'))
+        # Hermiticity on every lattice size: dictionary level, up to the order of commuting number operators
+        dag = dagger_dict(impl)
+        if cls == 'boson':
+            dag = {tuple(sorted(t, key=lambda f: f[0])): v for t, v in dag.items()}
+        if canon_dict(impl, cls == 'fermion') != canon_dict(dag, cls == 'fermion'):
+            s.violate(c['kind'] + ' is not Hermitian (term dictionary)', c, None)
         # linear-map oracles
         if cls == 'fermion' and modes <= 8:
-            Hj, Dj = jop, dict_to_op(doc)
-            orc.add(c['kind'] + ' does not denote the docstring Hamiltonian', c, spec_eq('fermion', modes, leaf(Hj), leaf(Dj)))
+            Hj = jop
+            if not cplx:
+                orc.add(c['kind'] + ' does not denote the docstring Hamiltonian', c, spec_eq('fermion', modes, leaf(Hj), leaf(dict_to_op(doc))))
             orc.add(c['kind'] + ' is not Hermitian', c,
                     spec_eq('fermion', modes, leaf(Hj), leaf(dict_to_op(dagger_dict(impl)))))
             if c['kind'] != 'dwave' or c['u'] == 0:
@@ -500,8 +580,9 @@ def stream_hubbard(ctx, E, only=None):
                         commutator_zero('fermion', modes, Hj, dict_to_op(sz_dict(x * y))))
             s.count('spec.eq-lattices')
         elif cls == 'boson' and modes <= 3:
-            Hj, Dj = jop, dict_to_op(doc)
-            orc.add('bose_hubbard does not denote the docstring Hamiltonian', c, spec_eq('boson', modes, leaf(Hj), leaf(Dj), 2))
+            Hj = jop
+            if not cplx:
+                orc.add('bose_hubbard does not denote the docstring Hamiltonian', c, spec_eq('boson', modes, leaf(Hj), leaf(dict_to_op(doc)), 2))
             dag = {tuple(sorted(t, key=lambda f: f[0])): v for t, v in dagger_dict(impl).items()}
             orc.add('bose_hubbard is not Hermitian', c, spec_eq('boson', modes, leaf(Hj), leaf(dict_to_op(dag)), 2))
             orc.add('bose_hubbard does not conserve the particle number', c,
@@ -516,14 +597,14 @@ def stream_hubbard(ctx, E, only=None):
 SP_CODE = {'ALL': 0, 'SAME': 1, 'DIFF': 2}
 
 
-def gen_fhm(rng, big):
+def gen_fhm(rng, big, types=None):
     x, y = rng.choice([(1, 2), (2, 1), (2, 2), (1, 3), (3, 1), (2, 3), (3, 2), (3, 3), (1, 1), (2, 4), (4, 2)] if big
                       else [(1, 2), (2, 1), (2, 2), (1, 3), (3, 1), (2, 3), (3, 2), (3, 3), (1, 1)])
     n_dofs = rng.choice([1, 1, 2, 2, 3])
     spinless = rng.random() < 0.5
     periodic = rng.random() < 0.5
     c = {'x': x, 'y': y, 'n_dofs': n_dofs, 'spinless': spinless, 'periodic': periodic,
-         'phs': rng.random() < 0.3, 'h': coupling(rng, 0.4)}
+         'phs': rng.random() < 0.3, 'h': coupling(rng, 0.4, types=types), 'style': rng.randrange(3)}
     tun, inter, pot = [], [], []
     for _ in range(rng.randint(0, 3)):
         e = rng.randrange(5)
@@ -532,29 +613,39 @@ def gen_fhm(rng, big):
             if n_dofs == 1:
                 continue
             aa = (a + 1) % n_dofs
-        tun.append([e, a, aa, coupling(rng, 0.05)])
+        tun.append([e, a, aa, complex_coupling(rng) if rng.random() < 0.1 else coupling(rng, 0.05, types=types)])
     for _ in range(rng.randint(0, 3)):
         e = rng.randrange(5)
         a, aa = rng.randrange(n_dofs), rng.randrange(n_dofs)
         sp = rng.choice(['ALL', 'SAME', 'DIFF'])
         if e == 0 and a == aa and sp == 'SAME':
             sp = 'DIFF'
-        inter.append([e, a, aa, rng.choice([1.0, 1, coupling(rng, 0.05)]), sp])
+        inter.append([e, a, aa, rng.choice([1.0, 1, coupling(rng, 0.05, types=types)]), sp])
     for _ in range(rng.randint(0, 2)):
-        pot.append([rng.randrange(n_dofs), coupling(rng, 0.05)])
+        pot.append([rng.randrange(n_dofs), coupling(rng, 0.05, types=types)])
     c.update(tunneling=tun, interaction=inter, potential=pot)
     return c
 
 
-def fhm_build(of, c):
-    from openfermion.utils import HubbardSquareLattice, SpinPairs
+def fhm_args(c):
+    """(T) the parameter containers as tuples or lists (records, dof pairs and the outer sequences), chosen by c['style']"""
+    from openfermion.utils import SpinPairs
+    style = c.get('style', 0)
+    rec = tuple if style == 0 else list
+    outer = list if style != 2 else tuple
+    dofs = tuple if style != 1 else list
+    tun = outer(rec((EDGE_NAMES[e], dofs((a, aa)), t)) for e, a, aa, t in c['tunneling'])
+    inter = outer(rec((EDGE_NAMES[e], dofs((a, aa)), u, getattr(SpinPairs, sp))) for e, a, aa, u, sp in c['interaction'])
+    pot = outer(rec((d, m)) for d, m in c['potential'])
+    return tun, inter, pot
+
+
+def fhm_build(of, c, args=None):
+    from openfermion.utils import HubbardSquareLattice
     lat = HubbardSquareLattice(c['x'], c['y'], n_dofs=c['n_dofs'], spinless=c['spinless'], periodic=c['periodic'])
-    return of.FermiHubbardModel(
-        lat,
-        tunneling_parameters=[(EDGE_NAMES[e], (a, aa), t) for e, a, aa, t in c['tunneling']],
-        interaction_parameters=[(EDGE_NAMES[e], (a, aa), u, getattr(SpinPairs, sp)) for e, a, aa, u, sp in c['interaction']],
-        potential_parameters=[(d, m) for d, m in c['potential']],
-        magnetic_field=c['h'], particle_hole_symmetry=c['phs'])
+    tun, inter, pot = args if args is not None else fhm_args(c)
+    return of.FermiHubbardModel(lat, tunneling_parameters=tun, interaction_parameters=inter, potential_parameters=pot,
+                                magnetic_field=c['h'], particle_hole_symmetry=c['phs'])
 
 
 def fhm_request(c, part='hamiltonian'):
@@ -624,7 +715,7 @@ def stream_fhm(ctx, E, only=None):
     n = budget(ctx.tier, 300, 3000)
     if ctx.drift:
         n = max(n, 600)
-    cases = [gen_fhm(rng, ctx.tier == 'thorough') for _ in range(n)]
+    cases = [gen_fhm(rng, ctx.tier == 'thorough', coupling_types(of)) for _ in range(n)]
     if only is not None:
         cases = [only] if 'tunneling' in only else []
     E.prefetch([(c['x'], c['y'], c['periodic'], k) for c in cases for k in (0, 1, 2, 3)])
@@ -637,8 +728,25 @@ def stream_fhm(ctx, E, only=None):
         for p in c['tunneling'] + c['interaction']:
             s.count('edge:' + EDGE_NAMES[p[0]])
         try:
-            m = fhm_build(of, c)
+            import copy
+            args = fhm_args(c)
+            snapshot = copy.deepcopy(args)
+            m = fhm_build(of, c, args)
+            # (S) every part is computed twice around an in-place modification of the first result; arguments stay untouched
+            h0 = m.hamiltonian()
+            first = exact_terms(h0)
+            h0 *= 2.0
+            h0.terms[()] = 7.0
             outs = [m.hamiltonian(), m.tunneling_terms(), m.interaction_terms(), m.potential_terms(), m.field_terms()]
+            for o in outs[1:]:
+                o *= 0.5
+            again = [m.tunneling_terms(), m.interaction_terms(), m.potential_terms(), m.field_terms()]
+            for o in outs[1:]:
+                o *= 2.0
+            if exact_terms(outs[0]) != first or any(exact_terms(a_) != exact_terms(b_) for a_, b_ in zip(again, outs[1:])):
+                s.violate('FermiHubbardModel returns different terms after an earlier result was modified in place', c, None)
+            if repr(args) != repr(snapshot):
+                s.violate('FermiHubbardModel modified its parameter containers', c, {'before': repr(snapshot)[:300], 'after': repr(args)[:300]})
         except Exception as e:  # noqa: BLE001
             s.violate('FermiHubbardModel raised on a valid parameter set', c, repr(e))
             continue
@@ -647,12 +755,21 @@ def stream_fhm(ctx, E, only=None):
                 s.disagree('FermiHubbardModel.' + part, c, enc_op('fermion', o.terms), mo)
                 break
         impl = exact_terms(outs[0])
-        doc, modes = doc_fhm(c, E)
-        compare_doc(s, 'FermiHubbardModel.hamiltonian()', c, impl, doc)
+        cplx = any(isinstance(p_[3], complex) for p_ in c['tunneling'])
+        if cplx:
+            # (A) complex hopping amplitude: the docstring formula is for real couplings; Hermiticity / conservation still apply
+            s.count('complex amplitude')
+            modes = c['x'] * c['y'] * c['n_dofs'] * (1 if c['spinless'] else 2)
+        else:
+            doc, modes = doc_fhm(c, E)
+            compare_doc(s, 'FermiHubbardModel.hamiltonian()', c, impl, doc)
+        if canon_dict(impl) != canon_dict(dagger_dict(impl)):
+            s.violate('FermiHubbardModel.hamiltonian() is not Hermitian (term dictionary)', c, None)
         if modes <= 8:
             Hj = enc_op('fermion', outs[0].terms)
-            orc.add('FermiHubbardModel.hamiltonian() does not denote the docstring Hamiltonian', c,
-                    spec_eq('fermion', modes, leaf(Hj), leaf(dict_to_op(doc))))
+            if not cplx:
+                orc.add('FermiHubbardModel.hamiltonian() does not denote the docstring Hamiltonian', c,
+                        spec_eq('fermion', modes, leaf(Hj), leaf(dict_to_op(doc))))
             orc.add('FermiHubbardModel.hamiltonian() is not Hermitian', c,
                     spec_eq('fermion', modes, leaf(Hj), leaf(dict_to_op(dagger_dict(impl)))))
             orc.add('FermiHubbardModel.hamiltonian() does not conserve the particle number', c,
@@ -825,11 +942,16 @@ def stream_rg(ctx):
 TOL = 1e-9
 
 
-def close_dicts(stream, a, b):
-    """max |a - b| over the union of keys (missing = 0); counts float comparisons"""
+def close_dicts(stream, a, b, band=0.0):
+    """max scaled difference |a - b| / max(1, |a|, |b|) over the union of keys (missing = 0): absolute for O(1)
+    coefficients, relative for large ones; keys whose two values are both below `band` are skipped (coefficients next to
+    the library's own 1e-8 pruning threshold); counts float comparisons"""
     worst, wk = 0.0, None
     for k in set(a) | set(b):
-        d = abs(complex(a.get(k, 0.0)) - complex(b.get(k, 0.0)))
+        x, y = complex(a.get(k, 0.0)), complex(b.get(k, 0.0))
+        if band and abs(x) < band and abs(y) < band:
+            continue
+        d = abs(x - y) / max(1.0, abs(x), abs(y))
         stream.float_comparisons += 1
         if d > worst:
             worst, wk = d, k
@@ -907,11 +1029,18 @@ def stream_grid(ctx):
     # cubic cells (float scale) and sheared / non-symmetric supercells (matrix scale, columns = cell vectors)
     grids = [([2], 1.0), ([3], 2.0), ([4], 0.5), ([5], 1.5), ([2, 2], 1.0), ([3, 3], 2.0), ([2, 3], 1.0), ([3, 2], 0.75),
              ([2, 2], [[1.3, 0.5], [0.0, 0.9]]), ([3, 2], [[1.0, 0.4], [0.2, 1.5]]), ([2, 3], [[0.8, -0.3], [0.5, 1.1]]),
-             ([3], [[1.7]])]
-    if ctx.tier == 'thorough' or ctx.drift:
+             ([3], [[1.7]]),
+             # large cells: |k|^2 down to 4e-9, potential coefficients up to 1e4 (coefficients of the kinetic term fall
+             # below the library's 1e-8 pruning there: they lie in the skipped band, see close_dicts)
+             ([3], 1.0e5), ([3], 2.0e4), ([4], 5.0e4), ([2, 2], 1.0e3), ([3, 2], 3.0e4)]
+    if ctx.tier == 'thorough':
         grids += [([6], 1.0), ([4, 4], 1.25), ([4, 3], 1.0), ([2, 2, 2], 1.0), ([3, 2, 2], 2.0), ([3, 3, 3], 1.5),
                   ([3, 3], [[1.2, 0.7], [-0.1, 0.9]]), ([2, 2, 2], [[1.0, 0.2, 0.1], [0.0, 1.1, 0.3], [0.4, 0.0, 0.9]]),
                   ([2, 2], [[0.0, 1.1], [0.7, 0.2]])]
+    elif ctx.drift:
+        # changed source: more grids, still within the quick time limit
+        grids += [([6], 1.0), ([2, 2, 2], 1.0), ([3, 3], [[1.2, 0.7], [-0.1, 0.9]]),
+                  ([2, 2, 2], [[1.0, 0.2, 0.1], [0.0, 1.1, 0.3], [0.4, 0.0, 0.9]]), ([2, 2], [[0.0, 1.1], [0.7, 0.2]])]
     for _ in range(budget(ctx.tier, 2, 8)):
         L = [rng.randint(2, 3), rng.randint(2, 3)]
         M = [[rng.randint(4, 12) / 8, rng.randint(-6, 6) / 8], [rng.randint(-6, 6) / 8, rng.randint(4, 12) / 8]]
@@ -922,6 +1051,7 @@ def stream_grid(ctx):
         dim = len(L)
         cubic = isinstance(scale, float)
         S = numpy.diag([scale] * dim) if cubic else numpy.array(scale, dtype=float)
+        band = 1e-7 if float(numpy.max(numpy.abs(S))) >= 1e3 else 0.0
         try:
             g = Grid(dim, tuple(L), scale if cubic else numpy.array(scale, dtype=float))
         except Exception as e:  # noqa: BLE001
@@ -943,7 +1073,7 @@ def stream_grid(ctx):
         s.count('grid-geometry:' + ('cubic' if cubic else 'matrix-scale'))
         try:
             s.float_comparisons += 1 + dim * dim + 2 * dim * len(pts)
-            if abs(g.volume_scale() - V) > TOL:
+            if abs(g.volume_scale() - V) > TOL * max(1.0, V):
                 s.violate('Grid.volume_scale() is not |det(scale)|', cg, {'volume_scale': float(g.volume_scale()), 'det': V})
             dual = numpy.array(g.reciprocal_scale).T @ numpy.array(g.scale)
             if numpy.max(numpy.abs(dual - 2 * pi * numpy.eye(dim))) > TOL:
@@ -953,7 +1083,7 @@ def stream_grid(ctx):
                     s.violate('momentum_vector(indices) is not sum_i n_i b_i', dict(cg, indices=list(idx)),
                               {'momentum_vector': numpy.array(g.momentum_vector(idx)).tolist(), 'expected': kvec(idx).tolist()})
                     break
-                if numpy.max(numpy.abs(numpy.array(g.position_vector(idx)) - rvec(idx))) > TOL:
+                if numpy.max(numpy.abs(numpy.array(g.position_vector(idx)) - rvec(idx))) > TOL * max(1.0, float(numpy.max(numpy.abs(S)))):
                     s.violate('position_vector(indices) is not sum_i (n_i / N_i) a_i', dict(cg, indices=list(idx)),
                               {'position_vector': numpy.array(g.position_vector(idx)).tolist(), 'expected': rvec(idx).tolist()})
                     break
@@ -993,7 +1123,7 @@ def stream_grid(ctx):
                     idd = float_terms(impl)
                     if name == 'plane_wave_potential' and set(md) != set(idd):
                         s.disagree(name + ' keys', c, sorted(map(str, set(idd) ^ set(md)))[:6], 'symmetric difference of key sets')
-                    worst, wk = close_dicts(s, idd, md)
+                    worst, wk = close_dicts(s, idd, md, band)
                     if worst > TOL:
                         s.disagree(name + ' coefficient', c, [wk, idd.get(wk)], [wk, md.get(wk)])
             # any cell: index structure from the Model, |k|^2 from the independent numpy reciprocal basis
@@ -1011,7 +1141,7 @@ def stream_grid(ctx):
                 idd = float_terms(impl)
                 if name == 'plane_wave_potential' and set(md) != set(idd):
                     s.disagree(name + ' keys', c, sorted(map(str, set(idd) ^ set(md)))[:6], 'symmetric difference of key sets')
-                worst, wk = close_dicts(s, idd, md)
+                worst, wk = close_dicts(s, idd, md, band)
                 if worst > TOL:
                     s.violate(name + ' coefficient differs from the formula over the reciprocal lattice', c,
                               {'term': wk, 'implementation': idd.get(wk), 'expected': md.get(wk)})
@@ -1033,7 +1163,7 @@ def stream_grid(ctx):
             for t, kind, delta in ms:
                 key = tuple((i, a) for i, a in t)
                 md[key] = md.get(key, 0.0) + (Kd if kind == 0 else Pd)[tuple(delta)]
-            worst, wk = close_dicts(s, float_terms(D), md)
+            worst, wk = close_dicts(s, float_terms(D), md, band)
             if worst > TOL:
                 s.disagree('dual_basis_jellium_model', c, [wk, float_terms(D).get(wk)], [wk, md.get(wk)])
             # docstring / physics oracles on the implementation's own output
@@ -1049,7 +1179,7 @@ def stream_grid(ctx):
                 # Hermiticity (normal-ordered comparison by the library's normal_ordered, trusted via C03)
                 Hn = of.normal_ordered(H)
                 Hd = of.normal_ordered(of.hermitian_conjugated(H))
-                worst, wk = close_dicts(s, float_terms(Hn), float_terms(Hd))
+                worst, wk = close_dicts(s, float_terms(Hn), float_terms(Hd), band)
                 if worst > TOL:
                     s.violate('jellium_model is not Hermitian', cc, {'term': wk, 'difference': worst})
                 # constant added exactly once
@@ -1061,7 +1191,7 @@ def stream_grid(ctx):
                               {'constant_added': got, 'expected': const_expected if const else 0.0})
                 rest_a = {k: v for k, v in ft.items() if k != ()}
                 rest_b = {k: v for k, v in base.items() if k != ()}
-                worst, wk = close_dicts(s, rest_a, rest_b)
+                worst, wk = close_dicts(s, rest_a, rest_b, band)
                 if worst > TOL:
                     s.violate('include_constant changes a non-constant term', cc, {'term': wk})
             # plane-wave one-body part and dual-basis one-body part are related by the Fourier transform of the
@@ -1093,7 +1223,7 @@ def stream_grid(ctx):
                     ea, eb = numpy.linalg.eigvalsh(sa), numpy.linalg.eigvalsh(sb)
                     s.float_comparisons += len(ea)
                     s.count('isospectrality:non_periodic=%s' % nonper)
-                    if numpy.max(numpy.abs(ea - eb)) > 1e-8:
+                    if numpy.max(numpy.abs(ea - eb)) > 1e-8 * max(1.0, float(numpy.max(numpy.abs(ea)))):
                         s.violate('momentum-space and position-space jellium are not isospectral', dict(c, non_periodic=nonper),
                                   {'max_difference': float(numpy.max(numpy.abs(ea - eb)))})
             for const in (True, False):
@@ -1103,7 +1233,7 @@ def stream_grid(ctx):
                 except Exception as e:  # noqa: BLE001
                     s.violate('jordan_wigner_dual_basis_jellium raised', c, repr(e))
                     continue
-                worst, wk = close_dicts(s, float_terms(Q), float_terms(R))
+                worst, wk = close_dicts(s, float_terms(Q), float_terms(R), band)
                 if worst > TOL:
                     s.violate('jordan_wigner_dual_basis_jellium differs from jordan_wigner(dual_basis_jellium_model)',
                               dict(c, include_constant=const), {'term': wk, 'difference': worst})
@@ -1129,13 +1259,14 @@ def stream_planewave(ctx):
                'hypercube_grid_with_given_wigner_seitz_radius_and_filling; float comparisons at 1e-9')
     rng = rng_for(ctx.seed, 'c13-pw')
     pi = math.pi
-    grids = [([2], 1.5), ([3], 1.5), ([4], 1.1), ([2, 2], 1.0), ([2, 2], [[1.3, 0.5], [0.0, 0.9]])]
+    grids = [([2], 1.5), ([3], 1.5), ([4], 1.1), ([2, 2], 1.0), ([2, 2], [[1.3, 0.5], [0.0, 0.9]]), ([3], 1.0e5), ([2, 2], 2.0e3)]
     if ctx.tier == 'thorough' or ctx.drift:
         grids += [([5], 1.1), ([3, 2], 1.25), ([3, 3], 2.0)]
     for L, scale in grids:
         dim = len(L)
         cubic = isinstance(scale, float)
         S = numpy.diag([scale] * dim) if cubic else numpy.array(scale, dtype=float)
+        band = 1e-7 if float(numpy.max(numpy.abs(S))) >= 1e3 else 0.0
         g = Grid(dim, tuple(L), scale if cubic else numpy.array(scale, dtype=float))
         V = abs(float(numpy.linalg.det(S)))
         B = 2 * pi * numpy.linalg.inv(S).T
@@ -1187,14 +1318,14 @@ def stream_planewave(ctx):
                         for n in range(npts):
                             if abs(Tt[m, n]) > 1e-12:
                                 expect[((m * nsp + sp, 1), (n * nsp + sp, 0))] = Tt[m, n]
-                worst, wk = close_dicts(s, float_terms(Ht), expect)
+                worst, wk = close_dicts(s, float_terms(Ht), expect, band)
                 s.count('oracle:' + name)
                 if worst > TOL:
                     s.violate(name + ' of a one-body operator is not the documented substitution', c,
                               {'term': wk, 'implementation': float_terms(Ht).get(wk), 'expected': expect.get(wk)})
             try:
                 back = ftm.inverse_fourier_transform(ftm.fourier_transform(H, g, spinless), g, spinless)
-                worst, wk = close_dicts(s, float_terms(back), float_terms(H))
+                worst, wk = close_dicts(s, float_terms(back), float_terms(H), band)
                 if worst > TOL:
                     s.violate('inverse_fourier_transform(fourier_transform(H)) != H', c, {'term': wk, 'difference': worst})
             except Exception as e:  # noqa: BLE001
@@ -1204,7 +1335,7 @@ def stream_planewave(ctx):
                 try:
                     a = of.normal_ordered(ftm.fourier_transform(jm.jellium_model(g, spinless, True), g, spinless))
                     b = of.normal_ordered(jm.jellium_model(g, spinless, False))
-                    worst, wk = close_dicts(s, float_terms(a), float_terms(b))
+                    worst, wk = close_dicts(s, float_terms(a), float_terms(b), band)
                     s.count('oracle:fourier(jellium)')
                     if worst > 1e-8:
                         s.violate('fourier_transform(momentum-space jellium) is not position-space jellium', c, {'term': wk, 'difference': worst})
@@ -1233,7 +1364,7 @@ def stream_planewave(ctx):
                 ext_db = pwh.dual_basis_external_potential(g, geom, spinless)
                 ext_pw = pwh.plane_wave_external_potential(g, geom, spinless)
                 s.count('oracle:external-potential')
-                worst, wk = close_dicts(s, float_terms(ext_db), expect_db)
+                worst, wk = close_dicts(s, float_terms(ext_db), expect_db, band)
                 if worst > TOL:
                     s.violate('dual_basis_external_potential differs from -4 pi/V sum_j sum_k Z_j cos(k.(R_j - r_p))/k^2', cg,
                               {'term': wk, 'implementation': float_terms(ext_db).get(wk), 'expected': expect_db.get(wk)})
@@ -1245,7 +1376,7 @@ def stream_planewave(ctx):
                         for n in range(npts):
                             if abs(Tt[m, n]) > 1e-12:
                                 expect_pw[((m * nsp + sp, 1), (n * nsp + sp, 0))] = Tt[m, n]
-                worst, wk = close_dicts(s, float_terms(ext_pw), expect_pw)
+                worst, wk = close_dicts(s, float_terms(ext_pw), expect_pw, band)
                 if worst > TOL:
                     s.violate('plane_wave_external_potential is not the inverse Fourier transform of the dual-basis potential', cg,
                               {'term': wk, 'implementation': float_terms(ext_pw).get(wk), 'expected': expect_pw.get(wk)})
@@ -1255,7 +1386,7 @@ def stream_planewave(ctx):
                         J = jm.jellium_model(g, spinless, pw, False, None, nonper)
                         ext = pwh.plane_wave_external_potential(g, geom, spinless, None, nonper) if pw \
                             else pwh.dual_basis_external_potential(g, geom, spinless, nonper)
-                        worst, wk = close_dicts(s, float_terms(Hm), float_terms(J + ext))
+                        worst, wk = close_dicts(s, float_terms(Hm), float_terms(J + ext), band)
                         if worst > TOL:
                             s.violate('plane_wave_hamiltonian is not jellium_model + external potential', dict(cg, plane_wave=pw),
                                       {'term': wk, 'difference': worst})
@@ -1273,7 +1404,7 @@ def stream_planewave(ctx):
                     s.violate('plane_wave_hamiltonian without nuclei is not jellium_model', c, None)
                 Q = pwh.jordan_wigner_dual_basis_hamiltonian(g, geom, spinless)
                 R = of.jordan_wigner(pwh.plane_wave_hamiltonian(g, geom, spinless, False))
-                worst, wk = close_dicts(s, float_terms(Q), float_terms(R))
+                worst, wk = close_dicts(s, float_terms(Q), float_terms(R), band)
                 if worst > TOL:
                     s.violate('jordan_wigner_dual_basis_hamiltonian differs from jordan_wigner(plane_wave_hamiltonian(plane_wave=False))', cg,
                               {'term': wk, 'difference': worst})
@@ -1315,14 +1446,14 @@ def stream_planewave(ctx):
                         s.violate('plane-wave generator raised with cutoffs', cc, repr(e))
                         continue
                     for name, impl, md in (('plane_wave_kinetic', Kc, ek), ('plane_wave_potential', Pc, ep)):
-                        worst, wk = close_dicts(s, float_terms(impl), md)
+                        worst, wk = close_dicts(s, float_terms(impl), md, band)
                         if worst > TOL:
                             s.violate(name + ' with cutoffs differs from the documented formula', cc,
                                       {'term': wk, 'implementation': float_terms(impl).get(wk), 'expected': md.get(wk)})
                     both = dict(ek)
                     for k_, v_ in ep.items():
                         both[k_] = both.get(k_, 0.0) + v_
-                    worst, wk = close_dicts(s, float_terms(Jc), both)
+                    worst, wk = close_dicts(s, float_terms(Jc), both, band)
                     if worst > TOL:
                         s.violate('jellium_model(plane_wave=True) with cutoffs is not kinetic + potential', cc, {'term': wk, 'difference': worst})
     # ---- Wigner-Seitz helpers
@@ -1468,8 +1599,250 @@ def stream_helpers(ctx):
                         s.violate('HubbardSquareLattice helper disagrees with the lattice geometry', c, {'first': bad[:3]})
                 except Exception as e:  # noqa: BLE001
                     s.violate('HubbardSquareLattice helper raised', c, repr(e))
+    # documented rejections (ValueError / OrbitalSpecificationError) and thin wrappers
+    from openfermion.utils import Grid, SpinPairs
+    from openfermion.utils.grid import OrbitalSpecificationError
+    from openfermion.hamiltonians import jellium as jm
+    lat = HubbardSquareLattice(3, 3)
+    lat1 = HubbardSquareLattice(2, 2, n_dofs=2)
+    rejections = [
+        ('onsite tunneling between the same dof', lambda: of.FermiHubbardModel(lat, tunneling_parameters=[('onsite', (0, 0), 1.0)]), ValueError),
+        ('interaction parameter of length 2', lambda: of.FermiHubbardModel(lat, interaction_parameters=[(0, 0)]), ValueError),
+        ('interaction parameter of length 5', lambda: of.FermiHubbardModel(lat, interaction_parameters=[(0,) * 5]), ValueError),
+        ('onsite same-dof same-spin interaction', lambda: of.FermiHubbardModel(lat, interaction_parameters=[('onsite', (0, 0), 1.0, SpinPairs.SAME)]), ValueError),
+        ('unknown edge type', lambda: of.FermiHubbardModel(lat, tunneling_parameters=[('banana', (0, 0), 1.0)]), ValueError),
+        ('dof out of range', lambda: of.FermiHubbardModel(lat, potential_parameters=[(1, 1.0)]), ValueError),
+        ('dof pair out of range', lambda: of.FermiHubbardModel(lat1, tunneling_parameters=[('neighbor', (0, 2), 1.0)]), ValueError),
+        ('site_pairs_iter of an unknown edge type', lambda: list(lat.site_pairs_iter('banana')), ValueError),
+        ('spin_pairs_iter of an unknown specification', lambda: list(lat.spin_pairs_iter('banana')), ValueError),
+        ('Grid with dimension 0', lambda: Grid(0, 2, 1.0), ValueError),
+        ('Grid with a negative length', lambda: Grid(1, -1, 1.0), ValueError),
+        ('Grid with an integer scale', lambda: Grid(1, 2, 1), ValueError),
+        ('Grid with a negative scale', lambda: Grid(1, 2, -1.0), ValueError),
+        ('position_vector outside the grid', lambda: Grid(2, 3, 1.0).position_vector((1, 3)), OrbitalSpecificationError),
+        ('momentum_vector outside the grid', lambda: Grid(2, 3, 1.0).momentum_vector((3, 0)), OrbitalSpecificationError),
+        ('orbital_id outside the grid', lambda: Grid(2, 3, 1.0).orbital_id((0, 3)), OrbitalSpecificationError),
+        ('grid_indices of a qubit outside the register', lambda: Grid(2, 3, 1.0).grid_indices(9, True), OrbitalSpecificationError),
+        ('grid_indices of a negative qubit', lambda: Grid(2, 3, 1.0).grid_indices(-1, False), OrbitalSpecificationError),
+        ('wigner_seitz_length_scale in dimension 0', lambda: jm.wigner_seitz_length_scale(1.0, 1, 0), ValueError),
+        ('hypercube grid with filling > 1', lambda: jm.hypercube_grid_with_given_wigner_seitz_radius_and_filling(1, 2, 1.0, 1.5), ValueError),
+        ('hypercube grid without particles', lambda: jm.hypercube_grid_with_given_wigner_seitz_radius_and_filling(1, 2, 1.0, 0.1), ValueError),
+    ]
+    for label, call, exc in rejections:
+        c = {'call': 'documented rejection', 'input': label}
+        s.case(c)
+        s.count('oracle:rejections')
+        try:
+            call()
+            s.violate('an invalid input is accepted', c, None)
+        except exc:
+            pass
+        except Exception as e:  # noqa: BLE001
+            s.violate('an invalid input raises an undocumented exception', c, repr(e))
+    for L, scale in (([3], 1.5), ([2, 2], 1.0)):
+        g = Grid(len(L), tuple(L), scale)
+        for spinless in (True, False):
+            c = {'call': 'dual_basis_kinetic / dual_basis_potential', 'length': L, 'spinless': spinless}
+            s.case(c)
+            try:
+                if jm.dual_basis_kinetic(g, spinless) != jm.dual_basis_jellium_model(g, spinless, True, False) or \
+                        jm.dual_basis_potential(g, spinless) != jm.dual_basis_jellium_model(g, spinless, False, True) or \
+                        exact_terms(jm.dual_basis_kinetic(g, spinless) + jm.dual_basis_potential(g, spinless)) != \
+                        exact_terms(jm.dual_basis_jellium_model(g, spinless)):
+                    s.violate('dual_basis_kinetic + dual_basis_potential is not dual_basis_jellium_model', c, None)
+            except Exception as e:  # noqa: BLE001
+                s.violate('dual_basis_kinetic / dual_basis_potential raised', c, repr(e))
     orc.flush()
     return s
+
+
+# ---------------------------------------------------------------- stream 8: state / aliasing and argument types
+
+def stream_state_types(ctx):
+    """families (S) and (T) of the hardening checklist for the functions the other streams drive"""
+    import copy
+    import importlib
+    import numpy
+    of = ctx.of
+    from openfermion.utils import Grid, HubbardSquareLattice
+    from openfermion.hamiltonians import jellium as jm, RichardsonGaudin
+    from openfermion.hamiltonians import special_operators as so
+    from openfermion.transforms.repconversions import fourier_transforms as ftm
+    pwh = importlib.import_module('openfermion.hamiltonians.plane_wave_hamiltonian')
+    s = Stream('state-and-types', '(S) every generator / helper is called twice around an in-place modification of what the first call '
+               'returned, arguments are snapshotted before / after, results must not alias arguments or earlier results; (T) lattice '
+               'dimensions, flags, grid lengths, coordinates, geometries and couplings as numpy integer / float / bool types and as tuples '
+               'vs lists (types the tree under test rejects are probed once and excluded): the result must equal the plain call')
+    rng = rng_for(ctx.seed, 'c13-state')
+
+    def same_op(a, b):
+        return exact_terms(a) == exact_terms(b)
+
+    def twice(label, c, f, mutate, equal):
+        """f() twice around mutate(first); equal(first snapshot, second)"""
+        s.case(dict(c, call=label))
+        s.count('oracle:(S) ' + label.split('(')[0])
+        try:
+            r1 = f()
+            snap = copy.deepcopy(r1)
+            mutate(r1)
+            r2 = f()
+            if not equal(snap, r2):
+                s.violate(label + ' returns a different result after its first result was modified in place', c, None)
+            if r1 is r2 and not isinstance(r1, (int, float, bool, str, tuple, type(None))):
+                s.violate(label + ' returns the same object twice', c, None)
+        except Exception as e:  # noqa: BLE001
+            s.violate(label + ' raised', c, repr(e))
+
+    def mut_op(o):
+        o *= 2.0
+        o.terms[()] = 5.0
+
+    def mut_arr(a):
+        a *= 0
+        a += 17
+
+    # ---- lattice dimension / flag types (T)
+    dim_types = {}
+    for name, ty in (('int64', numpy.int64), ('int32', numpy.int32), ('uint8', numpy.uint8), ('bool-flag', None)):
+        try:
+            if ty is not None:
+                of.fermi_hubbard(ty(2), ty(2), 1.0, 1.0)
+                of.bose_hubbard(ty(2), ty(2), 1.0, 1.0)
+                of.mean_field_dwave(ty(2), ty(2), 1.0, 1.0)
+                list(HubbardSquareLattice(ty(2), ty(2)).site_pairs_iter('neighbor'))
+            dim_types[name] = ty
+        except Exception:  # noqa: BLE001
+            pass
+    for name in dim_types:
+        s.count('accepted dimension type:' + name)
+    for (x, y) in [(1, 3), (2, 2), (2, 3), (3, 2), (3, 3), (4, 2)]:
+        for p in (True, False):
+            c = {'x': x, 'y': y, 'periodic': p}
+            ref = [of.fermi_hubbard(x, y, 1.0, 0.5, 0.25, 0.125, p), of.fermi_hubbard(x, y, 1.0, 0.5, 0.25, 0.0, p, True),
+                   of.bose_hubbard(x, y, 1.0, 0.5, 0.25, 0.125, p), of.mean_field_dwave(x, y, 1.0, 0.5, 0.25, p)]
+            lat = HubbardSquareLattice(x, y, periodic=p)
+            ref_pairs = {(e, o): sorted(lat.site_pairs_iter(e, o)) for e in EDGE_NAMES for o in (True, False)}
+            for name, ty in dim_types.items():
+                cc = dict(c, type=name)
+                s.case(cc)
+                s.count('oracle:(T) dimension types')
+                try:
+                    if ty is None:
+                        xx, yy, pp, sl = x, y, (1 if p else 0), 1      # truthy ints instead of bools
+                    else:
+                        xx, yy, pp, sl = ty(x), ty(y), numpy.bool_(p), numpy.bool_(True)
+                    got = [of.fermi_hubbard(xx, yy, 1.0, 0.5, 0.25, 0.125, pp), of.fermi_hubbard(xx, yy, 1.0, 0.5, 0.25, 0.0, pp, sl),
+                           of.bose_hubbard(xx, yy, 1.0, 0.5, 0.25, 0.125, pp), of.mean_field_dwave(xx, yy, 1.0, 0.5, 0.25, pp)]
+                    if any(not same_op(a, b) for a, b in zip(got, ref)):
+                        s.violate('a Hubbard generator depends on the numeric type of the lattice dimensions / flags', cc, None)
+                    lat2 = HubbardSquareLattice(xx, yy, periodic=pp)
+                    for (e, o), want in ref_pairs.items():
+                        if sorted((int(a), int(b)) for a, b in lat2.site_pairs_iter(e, o)) != want:
+                            s.violate('site_pairs_iter depends on the numeric type of the lattice dimensions / flags', dict(cc, edge=e), None)
+                            break
+                except Exception as e:  # noqa: BLE001
+                    s.violate('a generator accepted this type on a 2 x 2 lattice but raised here', cc, repr(e))
+    # ---- Grid helpers (S), containers (T)
+    for L, scale in (([3], 1.5), ([2, 3], 2.0), ([3, 2], [[1.0, 0.4], [0.2, 1.5]])):
+        dim = len(L)
+        arr = None if isinstance(scale, float) else numpy.array(scale, dtype=float)
+        g = Grid(dim, tuple(L), scale if arr is None else arr)
+        c = {'length': L, 'scale': scale}
+        before = None if arr is None else arr.copy()
+        idx = tuple(l - 1 for l in L)
+        twice('Grid.position_vector', c, lambda: g.position_vector(idx), mut_arr, numpy.array_equal)
+        twice('Grid.momentum_vector', c, lambda: g.momentum_vector(idx), mut_arr, numpy.array_equal)
+        twice('Grid.grid_indices', c, lambda: g.grid_indices(int(numpy.prod(L)) - 1, True), lambda r: r.append(9), lambda a, b: list(a) == list(b))
+        twice('Grid.index_to_momentum_ints', c, lambda: g.index_to_momentum_ints(idx), mut_arr, numpy.array_equal)
+        twice('Grid.momentum_ints_to_index', c, lambda: g.momentum_ints_to_index([1] * dim), lambda r: r.append(9), lambda a, b: list(a) == list(b))
+        s.case(dict(c, call='containers'))
+        s.count('oracle:(T) grid containers')
+        try:
+            g2 = Grid(dim, list(L), scale if arr is None else arr.copy())
+            g3 = Grid(dim, tuple(L), numpy.float64(scale)) if arr is None else Grid(dim, tuple(L), numpy.asfortranarray(arr.copy()))
+            for gg in (g2, g3):
+                for pt in itertools.product(*[range(l) for l in L]):
+                    if not (numpy.array_equal(gg.position_vector(list(pt)), g.position_vector(pt))
+                            and numpy.array_equal(gg.momentum_vector(list(pt)), g.momentum_vector(pt))
+                            and gg.orbital_id(list(pt), 1) == g.orbital_id(pt, 1)
+                            and gg.orbital_id(numpy.array(pt).tolist()) == g.orbital_id(pt)):
+                        s.violate('Grid helpers depend on tuple vs list / float vs numpy.float64 / memory order of their arguments', dict(c, point=list(pt)), None)
+                        break
+                if npts_le(L, 6):
+                    for spinless in (True, False):
+                        if not same_op(jm.jellium_model(gg, spinless, True), jm.jellium_model(g, spinless, True)) or \
+                                not same_op(jm.jellium_model(gg, spinless, False), jm.jellium_model(g, spinless, False)):
+                            s.violate('jellium_model depends on tuple vs list / float type / memory order of the Grid arguments', c, None)
+        except Exception as e:  # noqa: BLE001
+            s.violate('Grid with list length / numpy.float64 scale / Fortran-ordered scale raised', c, repr(e))
+        if npts_le(L, 6):
+            for spinless in (True, False):
+                cs = dict(c, spinless=spinless)
+                twice('plane_wave_kinetic', cs, lambda: jm.plane_wave_kinetic(g, spinless), mut_op, same_op)
+                twice('plane_wave_potential', cs, lambda: jm.plane_wave_potential(g, spinless), mut_op, same_op)
+                twice('dual_basis_jellium_model', cs, lambda: jm.dual_basis_jellium_model(g, spinless), mut_op, same_op)
+                twice('jellium_model(plane_wave=True)', cs, lambda: jm.jellium_model(g, spinless, True, True), mut_op, same_op)
+                twice('jordan_wigner_dual_basis_jellium', cs, lambda: jm.jordan_wigner_dual_basis_jellium(g, spinless), mut_op, same_op)
+        if before is not None and not numpy.array_equal(before, arr):
+            s.violate('a Grid / jellium function modified the scale array it was given', c, None)
+    # ---- spin operators, RichardsonGaudin (S), (T)
+    for n in (1, 3):
+        for name in ('s_plus_operator', 's_minus_operator', 'sx_operator', 'sy_operator', 'sz_operator', 's_squared_operator'):
+            twice(name, {'n_spatial_orbitals': n}, lambda: getattr(so, name)(n), mut_op, same_op)
+        twice('number_operator', {'n_modes': n}, lambda: so.number_operator(n), mut_op, same_op)
+    for g_ in (0.5, 1, numpy.float64(-0.25), True):
+        c = {'g': repr(g_), 'n_qubits': 3}
+        try:
+            rg = RichardsonGaudin(g_, 3)
+        except Exception:  # noqa: BLE001
+            continue           # a coupling type the tree rejects is excluded
+        ref = RichardsonGaudin(float(g_), 3).qubit_operator
+        if not same_op(rg.qubit_operator, ref):
+            s.violate('RichardsonGaudin depends on the numeric type of g', c, None)
+        twice('RichardsonGaudin.qubit_operator', c, lambda: rg.qubit_operator, mut_op, same_op)
+        hc0, hr10 = rg.hc.copy(), rg.hr1.copy()
+        _ = rg.qubit_operator, rg.n_body_tensors
+        if not (numpy.array_equal(hc0, rg.hc) and numpy.array_equal(hr10, rg.hr1)):
+            s.violate('RichardsonGaudin.qubit_operator / n_body_tensors modified hc / hr1', c, None)
+    # ---- Fourier transforms and nuclei: arguments untouched, containers (S), (T)
+    g = Grid(1, 3, 1.5)
+    H = of.FermionOperator('0^ 1', 0.5 + 0.25j) + of.FermionOperator('2^ 0', -1.0) + of.FermionOperator('1^ 1', 2.0)
+    Hsnap = copy.deepcopy(H)
+    c = {'call': 'fourier_transform'}
+    twice('fourier_transform', c, lambda: ftm.fourier_transform(H, g, True), mut_op, same_op)
+    twice('inverse_fourier_transform', c, lambda: ftm.inverse_fourier_transform(H, g, True), mut_op, same_op)
+    if not same_op(H, Hsnap):
+        s.violate('fourier_transform modified its argument', c, None)
+    geom_t = [('H', (0.25,)), ('Li', (-0.5,))]
+    geom_l = [['H', [0.25]], ['Li', [-0.5]]]
+    geom_n = [('H', numpy.array([0.25])), ('Li', numpy.array([-0.5]))]
+    snap = copy.deepcopy(geom_l)
+    c = {'call': 'plane_wave_hamiltonian', 'geometry': geom_l}
+    s.case(c)
+    s.count('oracle:(T) geometry containers')
+    try:
+        for pw in (True, False):
+            ref = pwh.plane_wave_hamiltonian(g, geom_t, True, pw)
+            for gm in (geom_l, geom_n):
+                if not same_op(pwh.plane_wave_hamiltonian(g, gm, True, pw), ref):
+                    s.violate('plane_wave_hamiltonian depends on tuple vs list vs ndarray coordinates', dict(c, plane_wave=pw), None)
+        if not same_op(pwh.jordan_wigner_dual_basis_hamiltonian(g, geom_l, True), pwh.jordan_wigner_dual_basis_hamiltonian(g, geom_t, True)):
+            s.violate('jordan_wigner_dual_basis_hamiltonian depends on tuple vs list coordinates', c, None)
+        if geom_l != snap:
+            s.violate('plane_wave_hamiltonian modified the geometry it was given', c, None)
+        twice('plane_wave_hamiltonian', c, lambda: pwh.plane_wave_hamiltonian(g, geom_t, True, True), mut_op, same_op)
+        twice('dual_basis_external_potential', c, lambda: pwh.dual_basis_external_potential(g, geom_t, True), mut_op, same_op)
+    except Exception as e:  # noqa: BLE001
+        s.violate('plane_wave_hamiltonian raised with list / ndarray coordinates', c, repr(e))
+    return s
+
+
+def npts_le(L, n):
+    p = 1
+    for l in L:
+        p *= l
+    return p <= n
 
 
 # ---------------------------------------------------------------- known findings
@@ -1535,9 +1908,12 @@ def replay(ctx, payload):
     if stream == 'hubbard-generators':
         return not stream_hubbard(ctx, E, only=case).violations
     if stream == 'fermi-hubbard-model':
+        case = dict(case)
+        if 'tunneling' in case:
+            case['tunneling'] = [[e, a, aa, complex(*t) if isinstance(t, list) else t] for e, a, aa, t in case['tunneling']]
         return not stream_fhm(ctx, E, only=case).violations
     # deterministic streams: run them again (with and without escalated budgets) and look for the same input
-    runner = {'spin-operators': stream_spin, 'grid-jellium': stream_grid, 'richardson-gaudin': stream_rg, 'fourier-planewave': stream_planewave, 'helpers': stream_helpers}.get(stream)
+    runner = {'spin-operators': stream_spin, 'grid-jellium': stream_grid, 'richardson-gaudin': stream_rg, 'fourier-planewave': stream_planewave, 'helpers': stream_helpers, 'state-and-types': stream_state_types}.get(stream)
     if runner is None:
         return None
     found_input = False
@@ -1558,4 +1934,4 @@ def json_norm(x):
 
 def run(ctx):
     E = Edges(ctx)
-    return [stream_bonds(ctx, E), stream_hubbard(ctx, E), stream_fhm(ctx, E), stream_spin(ctx), stream_rg(ctx), stream_grid(ctx), stream_planewave(ctx), stream_helpers(ctx)]
+    return [stream_bonds(ctx, E), stream_hubbard(ctx, E), stream_fhm(ctx, E), stream_spin(ctx), stream_rg(ctx), stream_grid(ctx), stream_planewave(ctx), stream_helpers(ctx), stream_state_types(ctx)]
